@@ -19,26 +19,6 @@ fn econnect(nodes: &Vec<CNode>, from: usize, to: usize, to_role: ClusterRole, an
     let l = connect(nodes, from, to, to_role, announce_primary);
     ELink { from: l.from, to: l.to, out_rx: l.out_rx, server: Some(l.server), server_rx: l.server_rx, server_job: None, conn: Some(l.conn), conn_job: None }
 }
-/// what the supervisor does with the bookkeeping messages that elections produce (replication_ops.rs, start_replication_supervisor)
-fn supervisor_step(node: &mut CNode) -> bool {
-    match node.sup_rx.try_next() {
-        Ok(Some(msg)) => {
-            let mut it = msg.splitn(2, " ");
-            let cmd = it.next().unwrap_or(""); let name = String::from(it.next().unwrap_or(""));
-            if cmd == "election-win" {
-                node.dbs.add_cluster_member(ClusterMember { name: node.name.clone(), role: ClusterRole::Primary, sender: None });
-                let _ = node.dbs.replicate_message(["set-primary ", &node.name].concat());
-            } else if cmd == "primary" {
-                if node.dbs.has_cluster_memeber(&name) { node.dbs.promote_member(&name); }
-            } else if cmd == "leave" {
-                if name != node.name { node.dbs.remove_cluster_member(&name); }
-            }
-            true
-        }
-        _ => false,
-    }
-}
-
 pub fn c07_election() {
     // early > 0: a handler sleeping in a wait loop may also wake up (2 ms poll) while lines are still in flight, up to `early` times
     // (fewer than the ticks of the election timeout, so no timeout fires because of them)
@@ -46,22 +26,30 @@ pub fn c07_election() {
     unsafe { vstd::vfs::ENV.push(("NUN_ELECTION_TIMEOUT", if early > 0 { "12" } else { "4" })); }
     let mut early_left = early;
     let secondaries = vsym::param("secondaries", 1);
-    let mut nodes = vec![mk_cnode("n1", 1, ClusterRole::Primary)];
+    // prim: which node is the primary at the start (default: the oldest, n1). prim = 1: an OLDER node (n1) has joined a cluster led
+    // by n2 and takes the role over in the election under test, the deposed primary stays in the cluster
+    let prim = vsym::param("prim", 0);
+    let mut nodes: Vec<CNode> = Vec::new();
     let mut i = 0;
-    while i < secondaries { nodes.push(mk_cnode(&["n", &(i + 2).to_string()].concat(), (i + 2) as u128, ClusterRole::Secoundary)); i += 1; }
-    nodes[0].dbs.add_cluster_member(ClusterMember { name: String::from("n1"), role: ClusterRole::Primary, sender: None });
+    while i < secondaries + 1 { nodes.push(mk_cnode(&["n", &(i + 1).to_string()].concat(), (i + 1) as u128, if i == prim { ClusterRole::Primary } else { ClusterRole::Secoundary })); i += 1; }
+    nodes[prim].dbs.add_cluster_member(ClusterMember { name: nodes[prim].name.clone(), role: ClusterRole::Primary, sender: None });
     let mut links: Vec<ELink> = Vec::new();
-    let mut s = 1;
+    let mut s = 0;
     while s < nodes.len() {
-        links.push(econnect(&nodes, 0, s, ClusterRole::Secoundary, true));
-        links.push(econnect(&nodes, s, 0, ClusterRole::Primary, false));
-        let mut t = 1;
-        while t < nodes.len() { if t != s { links.push(econnect(&nodes, s, t, ClusterRole::Secoundary, false)); } t += 1; }
-        // every node lists itself, as after its own join
-        nodes[s].dbs.add_cluster_member(ClusterMember { name: nodes[s].name.clone(), role: ClusterRole::Secoundary, sender: None });
+        if s != prim {
+            links.push(econnect(&nodes, prim, s, ClusterRole::Secoundary, true));
+            links.push(econnect(&nodes, s, prim, ClusterRole::Primary, false));
+            let mut t = 0;
+            while t < nodes.len() { if t != s && t != prim { links.push(econnect(&nodes, s, t, ClusterRole::Secoundary, false)); } t += 1; }
+            // every node lists itself, as after its own join
+            nodes[s].dbs.add_cluster_member(ClusterMember { name: nodes[s].name.clone(), role: ClusterRole::Secoundary, sender: None });
+        }
         s += 1;
     }
     let mut k = 0; while k < nodes.len() { drain(&mut nodes[k].sup_rx); k += 1; }
+    // from here on every node runs its REAL supervisor coroutine (start_replication_supervisor): arms election-win / primary / leave ...
+    let mut sups: Vec<Loop> = Vec::new();
+    let mut k = 0; while k < nodes.len() { let l = start_supervisor(&mut nodes[k]); sups.push(l); k += 1; }
     vsym::set_cooperative(true);
     // trigger: a forced election on a solver-chosen node (thorough: on two nodes at once)
     let mut client_jobs: Vec<vsym::Handle<Client>> = Vec::new();
@@ -71,7 +59,7 @@ pub fn c07_election() {
         // war = 1: a secondary claims the primary role while the primary is alive (what the timeout branches of start_election do:
         // election_win, reached through the `election win` command); the primary must win it back
         let war = vsym::param("war", 0) == 1;
-        let at = if war { 1 + vsym::choice("rival", nodes.len() - 1) } else { vsym::choice("trigger-at", nodes.len()) };
+        let at = if war { 1 + vsym::choice("rival", nodes.len() - 1) } else if prim != 0 { 0 } else { vsym::choice("trigger-at", nodes.len()) };
         vsym::tag_i("trigger-at", at as i64);
         let dbs = nodes[at].dbs.clone();
         client_jobs.push(vsym::spawn_suspended(move || { let (mut c, _rx) = admin_client(&dbs); process_request(if war { "election win" } else { "debug force-election" }, &dbs, &mut c); c }));
@@ -88,7 +76,7 @@ pub fn c07_election() {
         let mut ev: Vec<(usize, usize)> = Vec::new();
         // default order = the dedicated threads first (supervisor, replication loop), then connections in link order
         let mut n = 0;
-        while n < nodes.len() { if nodes[n].sup_rx.len() > 0 { ev.push((3, n)); } n += 1; }
+        while n < nodes.len() { if nodes[n].dbs.replication_supervisor_sender.len() > 0 { ev.push((3, n)); } n += 1; }
         let mut n = 0;
         while n < nodes.len() { if nodes[n].dbs.replication_sender.len() > 0 { ev.push((2, n)); } n += 1; }
         if started < client_jobs.len() { ev.push((9, started)); }
@@ -159,7 +147,7 @@ pub fn c07_election() {
         } else if kind == 2 { poll_once(&mut nodes[idx].repl); }
         else {
             if vsym::param("trace", 0) == 2 { vsym::tag(&["supervisor ", &nodes[idx].name].concat()); }
-            supervisor_step(&mut nodes[idx]);
+            poll_once(&mut sups[idx]);
         }
         if vsym::param("trace", 0) == 2 { let mut rs = String::from("  roles"); let mut q = 0; while q < nodes.len() { rs.push_str(" "); rs.push_str(&(nodes[q].dbs.get_role() as usize).to_string()); q += 1; } vsym::tag(&rs); }
         steps += 1;
@@ -169,7 +157,7 @@ pub fn c07_election() {
         let mut primaries = 0; let mut who = 0; let mut n = 0;
         while n < nodes.len() { if nodes[n].dbs.get_role() == ClusterRole::Primary { primaries += 1; who = n; } n += 1; }
         vsym::tag_i("primaries", primaries as i64); vsym::tag_i("steps", steps as i64);
-        if vsym::param("trace", 0) == 1 { let mut n = 0; while n < nodes.len() { vsym::tag_i("supq", nodes[n].sup_rx.len() as i64); vsym::tag_i("repq", nodes[n].dbs.replication_sender.len() as i64); n += 1; } }
+        if vsym::param("trace", 0) == 1 { let mut n = 0; while n < nodes.len() { vsym::tag_i("supq", nodes[n].dbs.replication_supervisor_sender.len() as i64); vsym::tag_i("repq", nodes[n].dbs.replication_sender.len() as i64); n += 1; } }
         let mut n = 0; while n < nodes.len() { vsym::tag(&["role-", &nodes[n].name, "=", &(nodes[n].dbs.get_role() as usize).to_string()].concat()); n += 1; }
         vsym::check("election.exactly-one-primary", primaries == 1);
         if primaries == 1 {
